@@ -28,7 +28,7 @@ func (r *Re) Sexp() Sexp {
 			xs = append(xs, L(N(int64(rg[0])), N(int64(rg[1]))))
 		}
 		return LS(xs)
-	case "any", "eps":
+	case "any", "eps", "bol", "eol":
 		return L(A(r.Kind))
 	case "seq", "alt":
 		return L(A(r.Kind), r.A.Sexp(), r.B.Sexp())
@@ -73,6 +73,10 @@ func (r *Re) Text() string {
 		return s + "]"
 	case "any":
 		return "."
+	case "bol":
+		return "^"
+	case "eol":
+		return "$"
 	case "eps":
 		return "(?:)"
 	case "seq":
@@ -104,6 +108,19 @@ func reLit(s string) *Re {
 		r = &Re{Kind: "seq", A: r, B: &Re{Kind: "chr", C: s[i]}}
 	}
 	return r
+}
+
+// anchored wraps a regex in `^` and/or `$` in half of the calls
+func anchored(r *rand.Rand, re *Re) *Re {
+	switch r.Intn(6) {
+	case 0:
+		return &Re{Kind: "seq", A: &Re{Kind: "bol"}, B: re}
+	case 1:
+		return &Re{Kind: "seq", A: re, B: &Re{Kind: "eol"}}
+	case 2:
+		return &Re{Kind: "seq", A: &Re{Kind: "bol"}, B: &Re{Kind: "seq", A: re, B: &Re{Kind: "eol"}}}
+	}
+	return re
 }
 
 // genRe draws a regex over the given literal alphabet; groups are numbered in order of
@@ -179,7 +196,7 @@ func (r *Re) branching() bool {
 
 func (r *Re) nullable() bool {
 	switch r.Kind {
-	case "eps", "star", "opt":
+	case "eps", "star", "opt", "bol", "eol":
 		return true
 	case "seq":
 		return r.A.nullable() && r.B.nullable()
